@@ -302,6 +302,7 @@ func runHist(c *Ctx) {
 		}
 		j := jobs[i]
 		say("B %d", i)
+		tj := time.Now()
 		for _, mode := range modes {
 			if j.Origin == "corpus" && mode == 1 {
 				continue
@@ -317,6 +318,9 @@ func runHist(c *Ctx) {
 				continue
 			}
 			say("H %d %d %s %s", i, mode, j.Origin, digest)
+			if d := time.Since(tj); d > 300*time.Millisecond && mode == 2 {
+				say("T %d %d %s", i, d.Milliseconds(), strings.ReplaceAll(j.Program, "\n", " "))
+			}
 			if viol != "" {
 				say("V %s\t%s", c56.CaseText("c05", j, "alias="+strconv.Itoa(mode)), strings.ReplaceAll(viol, "\n", " "))
 			}
@@ -324,6 +328,7 @@ func runHist(c *Ctx) {
 	}
 	say("E")
 }
+
 
 // say writes one protocol record to stdout immediately (a later crash must not lose it).
 func say(format string, a ...any) {
